@@ -278,7 +278,7 @@ def substituted(net):
 # ------------------------------------------------------------------------------------------ canned arguments
 RTE = RoutingTableEntry({Routes.east}, 0x00010000, 0xffff0000)
 CANNED = {
-    "address": 0x60001000, "data": b"\x01\x02\x03\x04\x05\x06\x07\x08", "length_bytes": 8, "link": Links.north,
+    "address": 0x60001000, "link": Links.north,
     "struct_name": "sv", "field_name": "p2p_dims", "values": 0x0202, "value": 5,
     "iptag": 1, "addr": "10.9.8.7", "port": 50000, "led": 1, "action": True, "size": 64, "tag": 1, "clear": True,
     "ptr": 0x60001000, "signal": "sync0", "state": "run", "count": 1, "poll_interval": 0.0, "timeout": 1.0,
@@ -289,6 +289,7 @@ CANNED = {
     ("read_fpga_reg", "addr"): 0x40, ("write_fpga_reg", "addr"): 0x40, ("write_fpga_reg", "value"): 0x1234,
 }
 MISSING = object()
+APP_KEYS = 1001            # keys of kept application context objects start here (kept plain blocks: 1, 2, ...)
 
 
 class Alt(object):
@@ -305,6 +306,12 @@ class Alt(object):
 
 CANNED[("count_cores_in_state", "state")] = Alt("run", ["run", "wait"], ("sync0",), "wait")
 CANNED[("wait_for_cores_to_reach_state", "state")] = Alt("run", ["run", "wait"])
+# sizes and alignments on both sides of rig's boundaries: fill() of a region that is not word-aligned goes through
+# write(); reads / writes longer than one SCP packet (256 bytes on the simulated machine) are split into several commands
+CANNED[("fill", "size")] = Alt(64, 6, 64, 10, 7)
+CANNED[("fill", "address")] = Alt(0x60001000, 0x60001000, 0x60001002, 0x60001000)
+CANNED["data"] = Alt(b"\x01\x02\x03\x04\x05\x06\x07\x08", bytes(range(200)) * 3, b"\x01\x02\x03\x04")
+CANNED["length_bytes"] = Alt(8, 8, 520)
 
 
 def canned(mname, pname):
@@ -453,6 +460,8 @@ def execute(drv, setup, program, label=""):
 
         observe = setup.get("observe", True)
         kept = {}                  # context objects made once and entered several times
+        kept_apps = {}             # application context objects (the result of application(...)) entered again later
+        files = []                 # file-like views returned by sdram_alloc_as_filelike: [object, freed?]
 
         def ctx_now():
             # (asking the controller what is in force is itself a call into the mechanism; sessions with
@@ -474,14 +483,46 @@ def execute(drv, setup, program, label=""):
                 if node["t"] == "update":
                     ctrl.update_current_context(**node["map"])
                     evs.append(["update", pairs(node["map"]), ctx_now(), flush()])
+                elif node["t"] == "links":
+                    # the machine's live Ethernet links change (the environment's step); a later
+                    # discover_connections() finds them
+                    net.up = set(map(tuple, node["up"]))
+                    evs.append(["links", [list(c) for c in sorted(net.up)]])
+                elif node["t"] == "fileop":
+                    # a file-like view made by an earlier sdram_alloc_as_filelike is used now, under whatever blocks
+                    # are open now
+                    live = [i for i, f in enumerate(files) if not f[1]]
+                    if not live:
+                        continue
+                    i = live[node["idx"] % len(live)]
+                    mem = files[i][0]
+                    try:
+                        if node["op"] == "read":
+                            mem.seek(0)
+                            mem.read(8)
+                        elif node["op"] == "write":
+                            mem.seek(4)
+                            mem.write(b"wxyz")
+                            mem.flush()
+                        elif node["op"] == "slice":
+                            mem[4:12].read(4)
+                        else:
+                            files[i][1] = True
+                            mem.free()
+                        outcome = ["ok"]
+                    except Exception as ex:       # judged by the spec
+                        outcome = ["raise", type(ex).__name__]
+                    evs.append(["fileop", i + 1, node["op"], outcome, flush()])
                 elif node["t"] == "invoke":
                     used.add(node["meth"])
                     if node["meth"] == "load_application":
                         net.count_reply = sum(len(c) for c in drv.star["load_application"][1].values())
                     pos, kw = drv.materialise(node["meth"], node["pos_enc"], node["kw_enc"])
                     try:
-                        getattr(ctrl, node["meth"])(*pos, **kw)
+                        rv = getattr(ctrl, node["meth"])(*pos, **kw)
                         outcome = ["ok"]
+                        if node["meth"] == "sdram_alloc_as_filelike":
+                            files.append([rv, False])
                     except Exception as ex:       # judged by the spec
                         outcome = ["raise", type(ex).__name__]
                     net.count_reply = 3
@@ -494,7 +535,12 @@ def execute(drv, setup, program, label=""):
                     run_block(node, early.get(id(node)))
 
         def run_block(node, made=None):
-            if node["kind"] == "app":
+            reentered = False
+            if node["kind"] == "app" and node.get("keep") is not None and node["keep"] in kept_apps:
+                # an application context object the program kept is entered again: no new call of application(...)
+                cm = kept_apps[node["keep"]]
+                reentered = True
+            elif node["kind"] == "app":
                 used.add("application")
                 call = node["call"]
                 pos, kw = drv.materialise("application", call["pos_enc"], call["kw_enc"])
@@ -504,6 +550,8 @@ def execute(drv, setup, program, label=""):
                     evs.append(["app", call["pos_enc"], call["kw_enc"], ["raise", type(ex).__name__],
                                 flush(), ctx_now()])
                     return
+                if node.get("keep") is not None:
+                    kept_apps[node["keep"]] = cm
             elif node.get("keep") is not None:
                 if node["keep"] not in kept:
                     kept[node["keep"]] = ctrl(**node["map"])
@@ -513,8 +561,13 @@ def execute(drv, setup, program, label=""):
             try:
                 try:
                     with cm:
-                        if node["kind"] == "app":
+                        if reentered:
+                            evs.append(["enter", [], ctx_now(), flush(), APP_KEYS + node["keep"]])
+                        elif node["kind"] == "app":
                             evs.append(["app", call["pos_enc"], call["kw_enc"], ["ok"], flush(), ctx_now()])
+                            if node.get("keep") is not None:
+                                # (a marker: the block just entered is an object the program keeps)
+                                evs.append(["keepapp", APP_KEYS + node["keep"]])
                         else:
                             evs.append(["enter", pairs(node["map"]), ctx_now(), flush(),
                                         0 if node.get("keep") is None else node["keep"] + 1])
@@ -669,10 +722,12 @@ MACHINES = [(2, 2, (0, 0)), (8, 8, (0, 0)), (12, 12, (0, 0)), (12, 12, (4, 8)), 
             (12, 24, (8, 4)), (12, 12, (0, 0)), (12, 12, (4, 0)), (24, 12, (7, 3)), (12, 12, (1, 1)), (24, 24, (20, 4))]
 
 
-def random_program(drv, rng, draw_values, names, light_only):
+def random_program(drv, rng, draw_values, names, light_only, link_cands=None):
     pool = [m for m in drv.drivable if not (light_only and m in ("get_system_info", "get_routing_table_entries"))]
 
     keepers = []               # (key, map) of context objects that the program keeps and enters again
+    app_keepers = []           # keys of application context objects that the program keeps and enters again
+    has_files = [False]
 
     def gen(depth, parent="none"):
         nodes = []
@@ -686,6 +741,21 @@ def random_program(drv, rng, draw_values, names, light_only):
                 nodes.append(dict(t="update", map={n: v[n] for n in names
                                                    if rng.random() < 0.5 and not (parent == "app" and n == "app_id")}))
                 continue
+            if drv.kind == "mc" and rng.random() < 0.05:
+                # a file-like view of allocated memory is made here and used later, wherever the program is then
+                has_files[0] = True
+                nodes.append(drv.make_call("sdram_alloc_as_filelike", rng, draw_values(),
+                                           rng.choice((None, "omit", "kw", "pos"))))
+                continue
+            if has_files[0] and rng.random() < 0.12:
+                nodes.append(dict(t="fileop", idx=rng.randrange(8), op=rng.choice(("read", "write", "slice", "read", "write", "free"))))
+                continue
+            if link_cands and rng.random() < 0.04:
+                # Ethernet links come up / go down, then (usually) the connections are discovered again
+                nodes.append(dict(t="links", up=[list(c) for c in link_cands if rng.random() < 0.6]))
+                if rng.random() < 0.8:
+                    nodes.append(drv.make_call("discover_connections", rng, draw_values(), "omit"))
+                continue
             if r < 0.55 or depth >= 3:
                 name = rng.choice(pool)
                 if name in HEAVY and rng.random() < 0.7:
@@ -697,7 +767,9 @@ def random_program(drv, rng, draw_values, names, light_only):
                 if rng.random() < 0.1:
                     m["nonesuch"] = 7          # a name no method declares
                 if rng.random() < 0.08:
-                    nodes.append(block("foreign", gen(depth + 1), map={n: v[n] for n in names}))
+                    # (a block of another controller is no block of this one: what lies inside it is still directly
+                    # inside the enclosing block of this controller)
+                    nodes.append(block("foreign", gen(depth + 1, parent), map={n: v[n] for n in names}))
                 elif rng.random() < 0.35:
                     # a context object kept by the program: made at its first entry, entered again later,
                     # under whatever blocks are open then
@@ -714,8 +786,16 @@ def random_program(drv, rng, draw_values, names, light_only):
                                        early=rng.random() < 0.3))
             else:
                 call = drv.app_call(rng, draw_values()["app_id"], rng.choice(("pos", "kw", "ctx")))
+                key = None
+                if rng.random() < 0.3:
+                    # the object application(...) returns is kept: made at its first entry, entered again later
+                    if app_keepers and rng.random() < 0.6:
+                        key = rng.choice(app_keepers)
+                    else:
+                        key = len(app_keepers)
+                        app_keepers.append(key)
                 nodes.append(block("app", gen(depth + 1, "app"), rng.random() < 0.25, rng.random() < 0.5, call=call,
-                                   stop_fails=rng.random() < 0.15))
+                                   stop_fails=rng.random() < 0.15, keep=key))
         return nodes
     return gen(0)
 
@@ -745,10 +825,70 @@ def random_mc(chk, drv, rng, n):
         else:
             v = draw()
             init = {k: v[k] for k in MC_NAMES if rng.random() < 0.4}
-        prog = random_program(drv, rng, draw, MC_NAMES, light_only=(w * h > 150))
+        prog = random_program(drv, rng, draw, MC_NAMES, light_only=(w * h > 150),
+                              link_cands=cands if rng.random() < 0.3 else None)
         if rng.random() < 0.7:
             prog.insert(0, drv.make_call("discover_connections", rng, draw(), rng.choice(("omit", "omit", "kw", "pos"))))
         yield execute(drv, dict(init=init, w=w, h=h, root=root, up=up, observe=rng.random() < 0.6), prog, "random-mc")
+
+
+def focus_mc(chk, drv, rng, n):
+    """Short programs aimed at histories the random trees reach rarely: (a) a file-like view made in one block and used
+    in others, (b) an application context object kept and entered again, (c) Ethernet links that change between two
+    discoveries, (d) fill() of unaligned regions and transfers longer than a packet under a block that sets a core."""
+    for i in range(n):
+        w, h, root = rng.choice([(12, 12, (0, 0)), (24, 12, (0, 0)), (24, 12, (7, 3)), (12, 24, (8, 4)), (24, 24, (20, 4))])
+        cands = sorted((x, y) for x in range(w) for y in range(h)
+                       if ((x - root[0]) % 12, (y - root[1]) % 12) in ((0, 0), (4, 8), (8, 4)))
+
+        def draw():
+            return dict(x=rng.randrange(w), y=rng.randrange(h), p=rng.randint(0, 17), processor=rng.randint(0, 17),
+                        app_id=rng.randint(1, 255))
+
+        def call(name, style="omit"):
+            return drv.make_call(name, rng, draw(), style)
+
+        def plain(children, names=("x", "y", "p"), **kw):
+            v = draw()
+            return block("plain", children, map={k: v[k] for k in names}, **kw)
+        up = [c for c in cands if rng.random() < 0.7]
+        lead = [call("discover_connections")] if rng.random() < 0.7 else []
+        kind = i % 4
+        if kind == 0:
+            ops = [dict(t="fileop", idx=rng.randrange(4), op=o) for o in ("read", "write", "slice", "free")]
+            rng.shuffle(ops)
+            ops = ops[:rng.randint(2, 4)]
+            prog = lead + [plain([call("sdram_alloc_as_filelike", rng.choice(("omit", "kw", "pos", None))), ops[0]],
+                                 names=("x", "y", "p", "app_id")),
+                           plain([ops[1]] + [plain(ops[2:3], raises=rng.random() < 0.3)], names=("x", "y")),
+                           plain([call("sdram_alloc_as_filelike", "kw")] + ops[3:], names=("x", "p", "app_id"))] + \
+                [dict(t="fileop", idx=rng.randrange(4), op=rng.choice(("read", "write", "free")))]
+        elif kind == 1:
+            a = drv.app_call(rng, draw()["app_id"], rng.choice(("pos", "kw")))
+            inner = block("app", [call("sdram_alloc"), dict(t="update", map={"x": rng.randrange(w)})], call=a, keep=0,
+                          raises=rng.random() < 0.3)
+            again = block("app", [call("send_signal")] +
+                          ([block("app", [call("count_cores_in_state")], call=a, keep=0)] if rng.random() < 0.4 else []),
+                          call=a, keep=0, raises=rng.random() < 0.3, stop_fails=rng.random() < 0.2)
+            prog = lead + [inner, call("send_signal"), plain([again, call("clear_routing_table_entries")],
+                                                             names=("y", "app_id")), again, call("sdram_free", "kw")]
+        elif kind == 2:
+            up2 = [c for c in cands if rng.random() < 0.7]
+            there = lambda: [drv.make_call(rng.choice(("read", "iptag_get", "get_chip_info", "sdram_alloc")), rng,
+                                           dict(draw(), x=c[0] + rng.randrange(4), y=c[1]), "kw") for c in cands
+                             if c[0] + 4 <= w]
+            prog = [call("discover_connections")] + there()[:4] + [dict(t="links", up=[list(c) for c in up2])] + \
+                ([call("discover_connections")] if rng.random() < 0.8 else []) + there()[:6]
+            if rng.random() < 0.5:
+                prog = [plain(prog, names=("x", "y"))]
+        else:
+            names = rng.choice((("p",), ("x", "p"), ("x", "y", "p"), ("y",)))
+            style = lambda: rng.choice(("omit", "kw", "pos", None))
+            prog = lead + [plain([call(m, style()) for m in ("fill", "fill", "write", "read", "write_across_link",
+                                                             "read_across_link", "fill", "write", "read_across_link")],
+                                 names=names)] + [call("fill", "kw"), call("fill", "pos")]
+        init = rng.choice((None, {}, {k: draw()[k] for k in ("x", "y")}))
+        yield execute(drv, dict(init=init, w=w, h=h, root=root, up=up, observe=rng.random() < 0.6), prog, "focus-mc")
 
 
 def random_bmp(chk, drv, rng, n):
@@ -788,12 +928,23 @@ def tally(chk, drv_by_kind, traces):
                 c = per.setdefault("%s.%s" % (drv.cls.__name__, ev[1]), [0, 0, 0])
                 c[0 if ev[4] == ["ok"] else 1] += 1
                 c[2] += len(ev[5])
+                if ev[1] == "fill" and any(d[4] == 3 for d in ev[5]):
+                    chk.count("fill() calls of an unaligned region (performed as writes)")
+                if ev[1] in ("read", "write", "read_across_link", "write_across_link") and len(ev[5]) > 1:
+                    chk.count("transfers split into several commands")
                 mi = drv.methods[ev[1]]
                 if tr["kind"] == "mc" and not set(mi.declared()) & {"p", "processor"}:
                     n = sum(1 for d in ev[5] if d[3] != 0)
                     if n:
                         chk.count("datagrams to a context's core sent by methods that declare no core argument "
                                   "(informational, not judged)", n)
+            elif ev[0] == "fileop":
+                chk.count("uses of a file-like view (read / write / slice / free) under later blocks")
+                chk.count("datagrams sent by file-like views", len(ev[4]))
+            elif ev[0] == "links":
+                chk.count("changes of the live Ethernet links between discoveries")
+            elif ev[0] == "enter" and ev[4] >= APP_KEYS:
+                chk.count("kept application context objects entered again")
             elif ev[0] == "exit":
                 chk.count("blocks left by exception" if ev[1] == "exception" else "blocks left normally")
                 if ev[2]:
@@ -835,6 +986,7 @@ def run(chk):
     traces += list(small_scope_mc(chk, mc, rng))
     traces += list(small_scope_bmp(chk, bmp, rng))
     traces += list(random_mc(chk, mc, rng, chk.pick(1200, 20000)))
+    traces += list(focus_mc(chk, mc, rng, chk.pick(120, 2000)))
     traces += list(random_bmp(chk, bmp, rng, chk.pick(500, 8000)))
     opened = sum(t.pop("opened") for t in traces)
     chk.count("simulated sockets opened (no real socket)", opened)
@@ -853,7 +1005,10 @@ def run(chk):
                 "discover_connections at the start of 70% of the programs (and wherever the random program calls it); "
                 "initial context: the documented default, empty, or random; non-trivial = at least one block and one "
                 "accepted command; distinct = distinct (controller, initial context, network, event skeleton with "
-                "arguments)")
+                "arguments); also: file-like views returned by sdram_alloc_as_filelike read / written / sliced / freed "
+                "under later blocks, application context objects kept and entered again (also inside themselves), "
+                "Ethernet links changing between two discoveries, fill() of unaligned regions, transfers of 8-600 "
+                "bytes (one to three commands), and focus programs for each of these (focus_mc)")
     chk.exhaustive = False
     chk.assumptions += [
         "the simulated machine acknowledges every command (no time-outs, no error codes); replies are canned",
